@@ -39,7 +39,7 @@ ASSUMPTIONS = ["copy.copy is taken after the handle's state point was accessed (
                "files are written only into initialised jobs; names never clash with signac's own files"]
 
 KEYS = ["a", "b", "c", "d"]
-VALS = {"a": [0, 1, 2], "b": [0, 1, "x"], "c": [[1, 2], [1, 3], 0], "d": [0, "y", [7]]}
+VALS = {"a": [0, 1, 2], "b": [0, None, "x"], "c": [[1, 2], [1, 3], 0], "d": [{"n": [0]}, "y", [7]]}
 FILES = [["data.txt"], ["sub", "x.bin"], ["a.out"]]
 DOCKEYS = ["p", "q"]
 DOCVALS = [1, "v", [1, {"z": None}]]
@@ -85,6 +85,28 @@ SCRIPTS = {
     "moved-handle-copy-independent": [["NewSession", "A"], ["NewSession", "B"], ["OpenSp", 0, typed({"a": 0})], ["Init", 0, False],
                           ["Sp", 0], ["Copy", 0], ["Move", 0, 1], ["Init", 1, False],
                           ["Edit", 1, [], ["set", "a", typed(2)]]],
+    # update_statepoint with several changing keys while other jobs sit at the partially updated state points
+    "update-multikey-neighbours": [["NewSession", "A"], ["OpenSp", 0, typed({"a": 0, "b": 0})], ["Init", 0, False],
+                                   ["DocSet", 0, "p", typed(1)],
+                                   ["OpenSp", 0, typed({"a": 1, "b": 0})], ["Init", 1, False],
+                                   ["OpenSp", 0, typed({"a": 0, "b": "x"})], ["Init", 2, False],
+                                   ["UpdateSp", 0, typed({"a": 1, "b": "x"}), True],
+                                   ["OpenSp", 0, typed({"a": 2, "b": None})], ["Init", 3, False],
+                                   ["UpdateSp", 3, typed({"b": "x", "a": 1}), True],
+                                   ["UpdateSp", 1, typed({"b": None}), False], ["UpdateSp", 1, typed({"c": 0, "a": 1}), False]],
+    # the caller keeps (and mutates in place) the mapping it passed to open_job before the handle is first used
+    "caller-mutates-nested": [["NewSession", "A"], ["OpenSp", 0, typed({"a": 0, "c": [1, 2]})],
+                              ["MutateArg", 0, "x", typed(9), True], ["Init", 0, False],
+                              ["OpenSp", 0, typed({"a": 0, "c": [1, 2]})], ["MutateArg", 1, "x", typed(5), True],
+                              ["Edit", 1, [], ["set", "b", typed("x")]],
+                              ["OpenSp", 0, typed({"d": {"n": [0]}, "a": 1})], ["MutateArg", 2, "m", typed(1), True],
+                              ["UpdateSp", 2, typed({"b": 0}), False], ["Sp", 2],
+                              ["OpenSp", 0, typed({"a": 2})], ["MutateArg", 3, "a", typed(7), False], ["Init", 3, False]],
+    # move() through a shallow copy, then a state point change through the original
+    "move-through-copy": [["NewSession", "A"], ["NewSession", "B"], ["OpenSp", 0, typed({"a": 0})], ["Init", 0, False],
+                          ["DocSet", 0, "p", typed(1)], ["Sp", 0], ["Copy", 0], ["Move", 1, 1],
+                          ["Edit", 0, [], ["set", "a", typed(2)]], ["IdPath", 1], ["Contains", 1, 1],
+                          ["Init", 0, False], ["Edit", 0, [], ["set", "b", typed("x")]], ["DocSet", 1, "q", typed("v")]],
     "lifecycle-clean": [["NewSession", "A"], ["NewSession", "B"], ["OpenSp", 0, typed({"a": 0, "c": [1, 2]})],
                         ["Init", 0, False], ["DocSet", 0, "p", typed([1, {"z": None}])],
                         ["WriteFile", 0, ["sub", "x.bin"], "00ff10"], ["Sp", 0], ["Copy", 0],
@@ -110,7 +132,7 @@ def gen_inputs(tier, rng):
 
 # reduced alphabet for the bounded-exhaustive tier: acts on a fixed prologue
 # (project A with jobs {a:0} (h0, doc+file) and {a:1} (h1); project B; h2 = copy.copy(h0))
-ALPHA = ["set01", "set02", "del", "assign", "update", "remove0", "remove2", "init0", "doc2", "move0", "clone0",
+ALPHA = ["set01", "set02", "del", "assign", "update", "remove0", "remove2", "init0", "doc2", "move0", "move2", "clone0",
          "reset0", "cache", "session"]
 
 
@@ -125,7 +147,7 @@ def word_ops(word):
         "assign": ["Assign", 2, typed({"a": 2, "c": [1, 2]})],
         "update": ["UpdateSp", 0, typed({"a": 1, "d": "y"}), True],
         "remove0": ["Remove", 0], "remove2": ["Remove", 2], "init0": ["Init", 0, False],
-        "doc2": ["DocSet", 2, "q", typed("v")], "move0": ["Move", 0, 1], "clone0": ["Clone", 1, 0],
+        "doc2": ["DocSet", 2, "q", typed("v")], "move0": ["Move", 0, 1], "move2": ["Move", 2, 1], "clone0": ["Clone", 1, 0],
         "reset0": ["Reset", 0], "cache": ["UpdateCache", 0], "session": ["NewSession", "A"],
     }
     return ops + [table[w] for w in word]
@@ -189,6 +211,85 @@ def random_ops(desc, W):
             base = rng.choice(present) if present else "".join(rng.choice(HEX) for _ in range(32))
             name = rng.choice([base + ".bak", base + "~", base + "0", base[:31], base.upper(), "x" + base[1:]])
             yield ["PlantDir", ["A", "workspace", name]]
+            continue
+        if W.handles and rng.random() < 0.12:
+            # ---- composite patterns (classes of histories that single random ops rarely compose)
+            pat = rng.choice(["multikey", "mutate", "copymove"])
+            if pat == "multikey":
+                h = pick_handle(sp_safe)
+                j = W.handles[h]
+                sp = j._statepoint._to_base() if not j._statepoint_requires_init else dict(j._cached_statepoint or {})
+                ks = rng.sample(KEYS, rng.choice([2, 2, 3]))
+                u = {}
+                for k in ks:
+                    cands = [v for v in VALS[k] if k not in sp or sp[k] != v]
+                    u[k] = rng.choice(cands)
+                # a neighbour at a partially updated state point (any proper non-empty subset of the keys, in the
+                # order the update is written) or at the final one
+                order = list(u)
+                cut = rng.randint(1, len(order))
+                partial = {**sp, **{k: u[k] for k in order[:cut]}}
+                if rng.random() < 0.8:
+                    before = len(W.handles)
+                    yield ["OpenSp", [i for i, r_ in enumerate(sess_root) if r_ == os.path.relpath(j._project.path, W.root)][0],
+                           typed(partial)]
+                    if len(W.handles) > before:
+                        new_group(before)
+                        yield ["Init", before, False]
+                if rng.random() < 0.3 and os.path.isdir(j.path) is False:
+                    yield ["Init", h, False]
+                yield ["UpdateSp", h, typed(u), rng.random() < 0.8]
+                if W.last_out == ["exn", "EDestinationExists"]:
+                    g = groups.get(h)
+                    dirty.update([h] + [i for i, gg in groups.items() if gg == g and g is not None])
+            elif pat == "mutate":
+                sp = rand_sp(rng)
+                nested = [k for k in sp if isinstance(sp[k], (list, dict))]
+                if not nested:
+                    k = rng.choice(["c", "d"])
+                    sp[k] = rng.choice([v for v in VALS[k] if isinstance(v, (list, dict))])
+                before = len(W.handles)
+                yield ["OpenSp", rng.randrange(len(sess_root)), typed(sp)]
+                if len(W.handles) > before:
+                    new_group(before)
+                    for _m in range(rng.randint(1, 2)):
+                        yield ["MutateArg", before, rng.choice(["x", "n", "a"]), typed(rng.choice([9, "z", [1]])), rng.random() < 0.85]
+                    k = rng.choice(KEYS)
+                    yield rng.choice([["Init", before, False],
+                                      ["Edit", before, [], ["set", k, typed(rng.choice(VALS[k]))]],
+                                      ["UpdateSp", before, typed({k: rng.choice(VALS[k])}), True],
+                                      ["DocSet", before, rng.choice(DOCKEYS), typed(1)],
+                                      ["Sp", before], ["Cached", before]])
+                    if rng.random() < 0.5:
+                        yield ["Init", before, False]
+            else:
+                h = pick_handle(sp_safe)
+                s2 = other_session(h)
+                if s2 is not None and h not in orphaned:
+                    if rng.random() < 0.7:
+                        yield ["Init", h, False]
+                    yield ["Sp", h]
+                    before = len(W.handles)
+                    yield ["Copy", h]
+                    if len(W.handles) > before:
+                        g = groups.get(h)
+                        if g is None:
+                            new_group(h)
+                            g = groups[h]
+                        groups[before] = g
+                        copies[g] = copies.get(g, 0) + 1
+                        shared.update(i for i, gg in groups.items() if gg == g)
+                        mover, stayer = (before, h) if rng.random() < 0.7 else (h, before)
+                        yield ["Move", mover, s2]
+                        if W.last_out == ["unit"]:
+                            orphaned.update(i for i, gg in groups.items() if gg == g and i != mover)
+                            groups.pop(mover, None)
+                            new_group(mover)
+                            if rng.random() < 0.4:
+                                yield ["Init", stayer, False]
+                            k = rng.choice(KEYS)
+                            yield ["Edit", stayer, [], ["set", k, typed(rng.choice(VALS[k]))]]
+                            yield rng.choice([["IdPath", mover], ["Contains", s2, mover], ["DocSet", mover, "q", typed("v")]])
             continue
         r = rng.random()
         nh = len(W.handles)
@@ -345,6 +446,10 @@ def run_case(desc):
         for op in gen:
             out = W.run(op)
             W.last_out = out
+            if out is None:          # harness-only op (the caller mutates the mapping it passed to open_job)
+                log.append([op, None, "same"])
+                kinds.add(op[0])
+                continue
             snap = W.run(["Snap"])
             steps.append("(mkStep3 %s %s %s)" % (wsops.coq_op(L, op), wsops.coq_oval(L, out), wsops.coq_oval(L, snap)))
             log.append([op, out, "same" if snap[0] == "snapsame" else
